@@ -8,12 +8,15 @@ package deviceshare
 //         P then per object (uid = position):  kind node G  then per group: type k (minor a b)*k
 //             then VG then per VF group: type k (minor*100+index)*k   (virtual functions of that type's allocation)
 //             type 1 = gpu (a = gpu-core, b = gpu-memory-ratio), type 2 = rdma (a = rdma, b unused)
-//         K live steps (kind uid): 1 Reserve 2 Unreserve 3 PreBind+bind+update 4 delete 5 update(same) 7 terminate
+//         K live steps (kind uid): 1 Reserve(+ResizePod) 2 Unreserve 3 PreBind+bind+update 4 delete 5 update(same) 7 terminate
+//                                  10 update: deletionTimestamp set (graceful termination; the object still holds its devices)
 //         S replay events (kind id): 1 Add 2 Update(obj,obj) 3 Update(pending,obj) 4 Device object of node id arrives
 // observable after every live step, for the LIVE plugin then for a FRESH plugin fed with the stored
 // objects: per node, per type, per minor: used a b, free a b (getNodeDeviceSummary); then per uid per
 // type the allocateSet entry ( 0 | 1 k (minor a b)*k ); then per type, per minor, per VF index 0..nvf-1:
-// 1 if the virtual function is in nodeDevice.vfAllocations.
+// 1 if the virtual function is in nodeDevice.vfAllocations.  Finally per uid 8 integers about Reservations (feature gate
+// ResizePod on): persisted? gpu-core gpu-memory-ratio rdma of the resize-allocatable annotation written by PreBindReservation,
+// held? and the same three amounts of the live reserve pod after ResizePod.
 
 import (
 	"context"
@@ -27,13 +30,16 @@ import (
 	"k8s.io/apimachinery/pkg/api/resource"
 	metav1 "k8s.io/apimachinery/pkg/apis/meta/v1"
 	"k8s.io/apimachinery/pkg/types"
+	k8sfeature "k8s.io/apiserver/pkg/util/feature"
 	"k8s.io/client-go/tools/cache"
+	apiresource "k8s.io/component-helpers/resource"
 	fwktype "k8s.io/kube-scheduler/framework"
 	"k8s.io/kubernetes/pkg/scheduler/framework"
 	"k8s.io/utils/ptr"
 
 	apiext "github.com/koordinator-sh/koordinator/apis/extension"
 	schedulingv1alpha1 "github.com/koordinator-sh/koordinator/apis/scheduling/v1alpha1"
+	"github.com/koordinator-sh/koordinator/pkg/features"
 	reservationutil "github.com/koordinator-sh/koordinator/pkg/util/reservation"
 )
 
@@ -230,6 +236,12 @@ func vtC19DSnapshot(obs []int64, inst *vtC19DInst, nodes, minors, nvf int64, key
 	return obs
 }
 
+// device amounts (gpu-core, gpu-memory-ratio, rdma) of a resource list
+func vtC19DAmounts(rl corev1.ResourceList) [3]int64 {
+	a, b, c := rl[apiext.ResourceGPUCore], rl[apiext.ResourceGPUMemoryRatio], rl[apiext.ResourceRDMA]
+	return [3]int64{a.Value(), b.Value(), c.Value()}
+}
+
 func vtC19DevExec(in []int64) []int64 {
 	pos := 0
 	next := func() int64 {
@@ -295,6 +307,7 @@ func vtC19DevExec(in []int64) []int64 {
 	stored := make([]vtC19DObj, np+1)
 	keys := make([]string, np+1)
 	cycle := make([]fwktype.CycleState, np+1)
+	held := make([][4]int64, np+1) // what the live reserve pod holds after ResizePod
 	for u := 1; u <= np; u++ {
 		pending[u] = vtC19DPending(u, descs[u])
 		stored[u] = pending[u]
@@ -335,10 +348,18 @@ func vtC19DevExec(in []int64) []int64 {
 				if s := live.plg.Reserve(ctx, cs, pod, node); !s.IsSuccess() {
 					panic(s.Message())
 				}
+				if d.kind == 1 && len(d.groups) > 0 {
+					if s := live.plg.ResizePod(ctx, cs, pod, node); !s.IsSuccess() {
+						panic(s.Message())
+					}
+					am := vtC19DAmounts(apiresource.PodRequests(pod, apiresource.PodResourcesOptions{}))
+					held[u] = [4]int64{1, am[0], am[1], am[2]}
+				}
 				cycle[u] = cs
 				life[u] = 1
 			case op.kind == 2 && life[u] == 1:
 				live.plg.Unreserve(ctx, cycle[u], pending[u].schedPod(), node)
+				held[u] = [4]int64{}
 				life[u] = 0
 			case op.kind == 3 && life[u] == 1:
 				b := pending[u].copy()
@@ -357,12 +378,24 @@ func vtC19DevExec(in []int64) []int64 {
 				live.onUpdate(pending[u], b)
 				stored[u] = b
 				life[u] = 2
-			case op.kind == 4 && (life[u] == 2 || life[u] == 4):
+			case op.kind == 4 && (life[u] == 2 || life[u] == 6 || life[u] == 4):
 				live.onDelete(stored[u])
+				held[u] = [4]int64{}
 				life[u] = 3
-			case op.kind == 5 && life[u] == 2:
+			case op.kind == 5 && (life[u] == 2 || life[u] == 6):
 				live.onUpdate(stored[u], stored[u].copy())
-			case op.kind == 7 && life[u] == 2:
+			case op.kind == 10 && life[u] == 2:
+				t := stored[u].copy()
+				ts := metav1.NewTime(time.Unix(1700000000, 0))
+				if t.pod != nil {
+					t.pod.DeletionTimestamp = &ts
+				} else {
+					t.rsv.DeletionTimestamp = &ts
+				}
+				live.onUpdate(stored[u], t)
+				stored[u] = t
+				life[u] = 6
+			case op.kind == 7 && (life[u] == 2 || life[u] == 6):
 				t := stored[u].copy()
 				if t.pod != nil {
 					t.pod.Status.Phase = corev1.PodSucceeded
@@ -416,6 +449,17 @@ func vtC19DevExec(in []int64) []int64 {
 			deliver(step{4, n})
 		}
 		obs = vtC19DSnapshot(obs, fresh, nodes, minors, nvf, keys)
+		for u := 1; u <= np; u++ {
+			var persisted [4]int64
+			if stored[u].rsv != nil && life[u] != 3 {
+				if ra, err := reservationutil.GetReservationResizeAllocatable(stored[u].rsv.Annotations); err == nil && ra != nil && ra.Resources != nil {
+					am := vtC19DAmounts(ra.Resources)
+					persisted = [4]int64{1, am[0], am[1], am[2]}
+				}
+			}
+			obs = append(obs, persisted[:]...)
+			obs = append(obs, held[u][:]...)
+		}
 	}
 	return obs
 }
@@ -502,14 +546,16 @@ func vtC19DevGen(r *rand.Rand, i int) (string, []int64) {
 		case 1:
 			kind = []int64{3, 3, 3, 2}[r.Intn(4)]
 		case 2:
-			kind = []int64{5, 5, 4, 7, 7}[r.Intn(5)]
+			kind = []int64{5, 5, 4, 7, 10, 10}[r.Intn(6)]
+		case 6:
+			kind = []int64{5, 5, 4, 7}[r.Intn(4)]
 		case 4:
 			kind = 4
 		default:
 			kind = int64(1 + r.Intn(7))
 		}
 		if r.Intn(12) == 0 {
-			kind = int64(1 + r.Intn(7))
+			kind = int64(1 + r.Intn(10))
 		}
 		switch {
 		case kind == 1 && life[u] == 0:
@@ -518,10 +564,12 @@ func vtC19DevGen(r *rand.Rand, i int) (string, []int64) {
 			life[u] = 0
 		case kind == 3 && life[u] == 1:
 			life[u] = 2
-		case kind == 4 && (life[u] == 2 || life[u] == 4):
+		case kind == 4 && (life[u] == 2 || life[u] == 6 || life[u] == 4):
 			life[u] = 3
-		case kind == 7 && life[u] == 2:
+		case kind == 7 && (life[u] == 2 || life[u] == 6):
 			life[u] = 4
+		case kind == 10 && life[u] == 2:
+			life[u] = 6
 		}
 		in = append(in, kind, int64(u))
 	}
@@ -550,5 +598,9 @@ func vtC19DevGen(r *rand.Rand, i int) (string, []int64) {
 
 func TestVerifC19Dev(t *testing.T) {
 	vtC19DT = t
+	// Reservations persist their reserved device amount only with the ResizePod gate
+	if err := k8sfeature.DefaultMutableFeatureGate.SetFromMap(map[string]bool{string(features.ResizePod): true}); err != nil {
+		t.Fatal(err)
+	}
 	vtMain(t, "C19", vtC19DevGen, vtC19DevExec)
 }
